@@ -71,6 +71,23 @@ def malformed(res):
                 res.disagreements.append({'what': 'input guard ' + cyc.API[name], 'input': bad, 'impl': got, 'model': want})
 
 
+def below_resolution(res):
+    """ranges far below 10^-atol: every aggregated table rounds them to 0.0 or to 1e-8 (recorded design limitation)"""
+    core.import_impl()
+    from ffpack import lcc
+    for h in ([0.0, 3e-9, 0.0, 4e-9, 0.0], [0.0, 6e-9, 0.0, 7e-9, 0.0]):
+        for name in cyc.NAMES:
+            if not cyc.valid_for(name, h):
+                continue
+            t = getattr(lcc, cyc.API[name])(list(h), aggregate=True)
+            res.evaluations += 1
+            res.stat('ranges_below_atol_resolution')
+            t = [] if t == [[]] else t
+            if any(not (0 < k <= max(h) - min(h)) for k, _ in t):
+                res.failures.append({'signature': 'C02:aggregated-ranges-rounded-to-atol-decimals:below-resolution', 'clause': 'fail:ranges (a counted range outside (0, max-min])',
+                                     'api': cyc.API[name], 'input': h, 'impl_output': t})
+
+
 def run(tier, seed):
     res = core.Result(PID, tier, seed)
     res.rule = ('random tie-rich histories (40% closed; dyadic grids compared exactly with the model, decimal grids 10^-1..10^-7 through the predicates only) x seven counters x both output modes; non-trivial = at least one '
@@ -82,6 +99,7 @@ def run(tier, seed):
     explore(res, rng, n, exhaustive=ex)
     res.notes.append('all histories of length <= %d over %d values enumerated in addition (a test, not the theorem)' % ex)
     malformed(res)
+    below_resolution(res)
     if (res.proof_problems or res.disagreements) and not res.failures:
         explore(res, random.Random(seed + 7919), 4 * n)
     res.disagreements_checked = res.traces
